@@ -171,6 +171,100 @@ def _raw_integer_helpers(f: Func) -> Set[str]:
     return out
 
 
+def _clamping_helpers(ctx) -> Set[str]:
+    """Module-level helpers every result of which is provably >= 0: `return max(0, ..)`, or `return min(p, q)` on the
+    path where the parameter p was found not negative and q receives a length (len(..) / .length / a local bound to
+    one) at every call site."""
+    cached = getattr(ctx, "_clamping_helpers", None)
+    if cached is not None:
+        return cached
+    from ..util import atoms, known_conditions
+
+    out: Set[str] = set()
+    for f in ctx.tree.funcs:
+        if f.parent is not None or f.cls is not None or isinstance(f.node, ast.Lambda) or f.module.name not in ("values", "vm", "context"):
+            continue
+        rets = [r for r in f.own_nodes() if isinstance(r, ast.Return) and r.value is not None]
+        if not rets:
+            continue
+        params = f.params()
+
+        def nonneg(e: ast.AST, at: ast.AST) -> bool:
+            if isinstance(e, ast.Constant) and isinstance(e.value, int) and e.value >= 0:
+                return True
+            if isinstance(e, ast.Call) and norm(e.func) == "max" and any(isinstance(a, ast.Constant) and a.value == 0 for a in e.args):
+                return True
+            if isinstance(e, ast.Call) and norm(e.func) == "len":
+                return True
+            if isinstance(e, ast.Call) and norm(e.func) == "min":
+                return all(nonneg(a, at) for a in e.args)
+            if isinstance(e, ast.Name) and e.id in params:
+                ats = [(norm(a).replace(" ", ""), p) for t, pol in known_conditions(at, f.node) for a, p in atoms(t, pol)]
+                if any((a in (f"{e.id}<0", f"0>{e.id}") and not p) or (a in (f"{e.id}>=0", f"0<={e.id}") and p) for a, p in ats):
+                    return True
+                # a length parameter: every call site passes len(..), an attribute called length, or such a local
+                idx = params.index(e.id)
+                sites = [c for g in ctx.tree.funcs for c in g.own_nodes() if isinstance(c, ast.Call) and isinstance(c.func, ast.Name) and c.func.id == f.name and g is not f]
+                if not sites:
+                    return False
+                for c in sites:
+                    if idx >= len(c.args):
+                        return False
+                    a = c.args[idx]
+                    t = norm(a)
+                    if not (t.startswith("len(") or t.endswith(".length") or t == "length" or t.endswith("_len") or t == "size"):
+                        return False
+                return True
+            return False
+
+        if all(nonneg(r.value, r) for r in rets):
+            out.add(f.name)
+    ctx._clamping_helpers = out
+    return out
+
+
+def rule_backward_search_start(ctx, rep, rid: str) -> None:
+    """A search that runs BACKWARDS from a script-supplied index (`for i in range(start, -1, -1)`) has nothing to
+    search when that index, counted back from the end, is still negative.  Clamping it to 0 (the right thing for a
+    forward search or a slice bound) makes the loop inspect element 0: [1,2,3].lastIndexOf(1, -4) must be -1."""
+    rep.rule(rid, "the start of a backward scan over the elements (a descending range down to 0) that comes from a script integer is not clamped up to 0 on its way there (max(0, ..) or a clamping helper): a start that is still negative after counting from the end means an empty search, not a search of element 0", floor=1)
+    clampers = _clamping_helpers(ctx)
+    n = 0
+    for f in ctx.tree.funcs:
+        if isinstance(f.node, ast.Lambda) or f.module.name not in ("vm", "context"):
+            continue
+        ints = {}
+        for a in f.own_nodes():
+            if isinstance(a, ast.Assign) and len(a.targets) == 1 and isinstance(a.targets[0], ast.Name):
+                arms = [a.value.body, a.value.orelse] if isinstance(a.value, ast.IfExp) else [a.value]
+                if any(isinstance(x, ast.Call) and call_name(x) == "to_integer" for arm in arms for x in ast.walk(arm)):
+                    ints.setdefault(a.targets[0].id, a.lineno)
+        if not ints:
+            continue
+        for loop in f.own_nodes():
+            if not (isinstance(loop, ast.For) and isinstance(loop.iter, ast.Call) and norm(loop.iter.func) == "range" and len(loop.iter.args) == 3):
+                continue
+            a0, a1, a2 = loop.iter.args
+            if not (norm(a2).replace(" ", "") == "-1" and norm(a1).replace(" ", "") == "-1"):
+                continue
+            used = [x.id for x in ast.walk(a0) if isinstance(x, ast.Name) and x.id in ints]
+            for v in used:
+                n += 1
+                key = f"{f.qual}:{v}:backward-scan"
+                clamp = None
+                for a in f.own_nodes():
+                    if isinstance(a, ast.Assign) and len(a.targets) == 1 and isinstance(a.targets[0], ast.Name) and a.targets[0].id == v and ints[v] < a.lineno < loop.lineno:
+                        t = norm(a.value).replace(" ", "")
+                        if t.startswith("max(0,") or (isinstance(a.value, ast.Call) and isinstance(a.value.func, ast.Name) and a.value.func.id in clampers):
+                            clamp = a
+                if clamp is None:
+                    rep.ok(rid, key)
+                else:
+                    rep.bad(rid, key, f"{f.qual} scans backwards from `{v}` (line {loop.lineno}) after clamping it up to 0 with `{short(clamp.value, 40)}` (line {clamp.lineno}): an index that is still negative after counting from the end means there is nothing to search (the result is -1), but the clamped 0 makes the scan inspect element 0 ([1,2,3].lastIndexOf(1, -4) gives 0)", f"{f.module.rel}:{clamp.lineno}")
+    if n < 1:
+        raise AnalysisError(f"{rid}: no backward scan from a script integer found")
+
+
 def rule_negative_positions(ctx, rep, rid: str, modules: Tuple[str, ...] = ("vm", "context", "values"), floor: int = 10, only=None) -> None:
     """A script integer (the result of to_integer) that is used as a Python slice bound, as the start/end position
     of str.find/startswith/..., or as a subscript has to be made non-negative first: Python reads -1 as "one from
@@ -191,10 +285,13 @@ def rule_negative_positions(ctx, rep, rid: str, modules: Tuple[str, ...] = ("vm"
             continue
         # sanitising statements per local: (line, kind)
         san: Dict[str, List[int]] = {k: [] for k in ints}
+        clampers = _clamping_helpers(ctx)
         for n in f.own_nodes():
             if isinstance(n, ast.Assign) and len(n.targets) == 1 and isinstance(n.targets[0], ast.Name) and n.targets[0].id in ints:
                 v = norm(n.value).replace(" ", "")
                 if v.startswith("max(0,") or v.startswith("min(max(") or ",0)" in v and v.startswith("max("):
+                    san[n.targets[0].id].append(n.lineno)
+                if isinstance(n.value, ast.Call) and isinstance(n.value.func, ast.Name) and n.value.func.id in clampers:
                     san[n.targets[0].id].append(n.lineno)
             if isinstance(n, ast.If):
                 t = norm(n.test).replace(" ", "")
